@@ -1,8 +1,10 @@
 //! Registry of property checks.
 use crate::core::PropDef;
 
+pub mod c02;
 pub mod c12;
+pub mod c19;
 
 pub fn all() -> Vec<PropDef> {
-    vec![c12::def()]
+    vec![c02::def(), c12::def(), c19::def()]
 }
